@@ -32,8 +32,8 @@ func (c17) Runs(tier string) int {
 func (c17) Describe() core.Description {
 	return core.Description{
 		Level:  "exploration",
-		Rule:   "per run: drawn ring (LogN 4-8, 1-4 moduli of unequal size), drawn distribution (uniform / Gaussian with sigma 0.5..2^70 and bound/sigma 0.5..8 incl. the big-number path / ternary with P in {0.5, 2/3, drawn} or H in 1..N), Montgomery flag, 32-byte key (raw generator: keys of 1-64 bytes); history of 4-50 calls drawn from {Read, ReadNew, ReadAndAdd on the base sampler or on any level view, create view AtLevel(l), ringqp sampler calls}, executed on the system sampler and on a twin with the same key; then reset-and-replay, different-key divergence, compressed-key expansion twin. Non-trivial = history with >= 2 level views interleaved or >= 1 ReadAndAdd; distinct = distinct choice traces",
-		Real:   []string{"ring.UniformSampler/GaussianSampler/TernarySampler and their AtLevel views", "ringqp.UniformSampler (+AtLevel, WithPRNG)", "sampling.KeyedPRNG (BLAKE2b XOF) incl. Reset", "rlwe.EvaluationKey.Expand / compressed key generation", "ring.Ring.PolyToBigintCentered, IMForm (substrate for the oracles)"},
+		Rule:   "per run: drawn ring (LogN 4-8, 1-4 moduli of unequal size), drawn distribution (uniform / Gaussian with sigma 0.5..2^70 and bound/sigma 0.5..8 incl. the big-number path / ternary with P in {0.5, 2/3, drawn} or H in 1..N), Montgomery flag, 32-byte key (raw generator: keys of 1-64 bytes); history of 4-50 calls drawn from {Read, ReadNew, ReadAndAdd on the base sampler or on any level view, create view AtLevel(l), ringqp sampler calls}, executed on the system sampler and on a twin with the same key; then reset-and-replay, different-key divergence, compressed-key expansion twin, seeded-encryption twin (a secret-key encryptor bound WithPRNG against a sampler with the same key, receivers of degree 0 and 1 at drawn levels). Non-trivial = history with >= 2 level views interleaved or >= 1 ReadAndAdd; distinct = distinct choice traces",
+		Real:   []string{"ring.UniformSampler/GaussianSampler/TernarySampler and their AtLevel views", "ringqp.UniformSampler (+AtLevel, WithPRNG)", "sampling.KeyedPRNG (BLAKE2b XOF) incl. Reset", "rlwe.EvaluationKey.Expand / compressed key generation", "rlwe.Encryptor.WithPRNG + EncryptZero (secret key)", "ring.Ring.PolyToBigintCentered, IMForm (substrate for the oracles)"},
 		Stub:   []string{"entropy source for keys (deterministic crypto/rand.Reader)", "recording wrapper around the keyed source (counts bytes and calls)"},
 		Assume: []string{"no fault is injected: a sampling.PRNG that short-reads or fails is outside the documented contract", "statistical bands are at least 8 standard errors wide and only evaluated on >= 2000 coefficients"},
 	}
@@ -444,6 +444,72 @@ func (p c17) Run(ctx *core.RunCtx) {
 	p.endStats(ctx, d, stats, r)
 	if ch.Chance("qp-and-expand", 1, 3) {
 		p.qpAndExpand(ctx, params, key)
+	}
+	if ch.Chance("seeded-encryption", 1, 4) {
+		p.seededEncryption(ctx, params, key)
+	}
+}
+
+// seededEncryption: a secret-key encryptor bound to a keyed generator (WithPRNG) takes the public component of each
+// ciphertext from it: one uniform polynomial at the level of the ciphertext per encryption. A party holding the same
+// key and performing the same sequence of reads (a twin sampler) obtains the same components - this is how a
+// receiver of degree 0 (the ciphertext without its public component) is completed on the other side.
+func (p c17) seededEncryption(ctx *core.RunCtx, params rlwe.Parameters, key []byte) {
+	ch := ctx.Ch
+	kgen := rlwe.NewKeyGenerator(params)
+	sk := kgen.GenSecretKeyNew()
+	k1, _ := sampling.NewKeyedPRNG(key)
+	k2, _ := sampling.NewKeyedPRNG(key)
+	enc := rlwe.NewEncryptor(params, sk).WithPRNG(k1)
+	twin := ring.NewUniformSampler(k2, params.RingQ())
+	n := 2 + ch.Draw("seeded-enc-steps", 5)
+	for i := 0; i < n; i++ {
+		level := ch.Draw("seeded-enc-level", params.MaxLevelQ()+1)
+		deg := ch.Draw("seeded-enc-degree", 2)
+		ct := rlwe.NewCiphertext(params, deg, level)
+		if ch.Chance("seeded-enc-other-domain", 1, 4) {
+			ct.IsNTT = !ct.IsNTT
+		}
+		var err error
+		pk, site, msg := core.Protect(func() { err = enc.EncryptZero(ct) })
+		if pk || err != nil {
+			ctx.Fail("panic", "Encryptor.WithPRNG|EncryptZero", "EncryptZero (degree %d, level %d) with a bound generator failed: panic=%v %s %s err=%v", deg, level, pk, site, msg, err)
+			return
+		}
+		rq := params.RingQ().AtLevel(level)
+		c1 := rq.NewPoly()
+		twin.AtLevel(level).Read(c1)
+		ctx.Count("oracle.seeded-encryption-twin", 1)
+		if deg == 1 {
+			if !ct.Value[1].Equal(&c1) {
+				ctx.Fail("twin", "Encryptor.WithPRNG|public-component-differs", "encryption #%d (degree 1, level %d) of an encryptor bound to a keyed generator: the public component is not the polynomial a sampler with the same key reads at that point of the sequence", i, level)
+				return
+			}
+			continue
+		}
+		// degree 0: c0 + c1*s is the error, a small polynomial, when c1 is what the encryptor used
+		c0 := ct.Value[0].CopyNew()
+		a := c1.CopyNew()
+		if !ct.IsNTT {
+			rq.NTT(*a, *a)
+			rq.NTT(*c0, *c0)
+		}
+		rq.MulCoeffsMontgomeryThenAdd(*a, sk.Value.Q, *c0)
+		rq.INTT(*c0, *c0)
+		if rq.ModulusAtLevel[level].BitLen() < 12 {
+			continue
+		}
+		coeffs := make([]*big.Int, rq.N())
+		for j := range coeffs {
+			coeffs[j] = new(big.Int)
+		}
+		rq.PolyToBigintCentered(*c0, 1, coeffs)
+		for j := range coeffs {
+			if coeffs[j].CmpAbs(big.NewInt(64)) > 0 {
+				ctx.Fail("twin", "Encryptor.WithPRNG|compressed-ciphertext-not-completed", "encryption #%d (degree 0, level %d): completed with the polynomial a sampler with the same key reads at that point of the sequence, the ciphertext does not decrypt to zero (coefficient %d of c0 + c1*s is %s)", i, level, j, coeffs[j].String())
+				return
+			}
+		}
 	}
 }
 
